@@ -2008,7 +2008,8 @@ class Cache:
                         warnings.warn(message, EmptyDirWarning)
 
                         if fix:
-                            os.rmdir(dirpath)
+                            # Also prune parents that become empty.
+                            os.removedirs(dirpath)
 
                 # Check Settings.count against count of Cache rows.
 
